@@ -323,9 +323,12 @@ class PeriodicMessageTask:
         """
         self.bus = bus
         self.period = period
+        # Copy the payload: python-can keeps a bytearray as is, so the caller's
+        # in-place changes would go unnoticed by update()
         self.msg = can.Message(is_extended_id=can_id > 0x7FF,
                                arbitration_id=can_id,
-                               data=data, is_remote_frame=remote)
+                               data=bytes(data) if data is not None else None,
+                               is_remote_frame=remote)
         self._start()
 
     def _start(self):
